@@ -139,8 +139,9 @@ where
                         Poll::Ready(Some(Ok(Message::Header(h)))) => match h {
                             HeaderLine::V1 => *this.state = State::SendHeader { io },
                         },
-                        Poll::Ready(Some(Ok(_))) =>
-                            return Poll::Ready(Err(ProtocolError::InvalidMessage.into())),
+                        Poll::Ready(Some(Ok(_))) => {
+                            return Poll::Ready(Err(ProtocolError::InvalidMessage.into()))
+                        }
                         Poll::Ready(Some(Err(err))) => return Poll::Ready(Err(From::from(err))),
                         // Treat EOF error as [`NegotiationError::Failed`], not as
                         // [`NegotiationError::ProtocolError`], allowing dropping or closing an I/O
@@ -424,10 +425,11 @@ pub fn webrtc_listener_negotiate(
         }
         // Protocol without header is only valid if the header was already exchanged.
         Message::Protocol(protocol) if header_received => (protocol, false),
-        _ =>
+        _ => {
             return Err(Error::NegotiationError(
                 error::NegotiationError::MultistreamSelectError(NegotiationError::Failed),
-            )),
+            ))
+        }
     };
 
     // Reject messages with unexpected trailing data.
